@@ -5,8 +5,9 @@
     --today ([run_ignores_process_zone]).  The process zone still reaches the program, but only through
     the zone of the wall clock value ([time.Now()] is local): a change of zone is [with_zone w tz clock].
     With --today the clock is not read either, so the run is the same in every zone and at every clock
-    ([tz_independent_clock]); without --today [summary today] does depend on the zone of the clock
-    (PeriodRun.tz_independent_without_today_refuted). *)
+    ([tz_independent_clock]); without --today the run depends on the clock, but (fix F25) only on the
+    calendar day it shows ([run_depends_on_clock_day_only]; that the day matters:
+    PeriodRun.tz_independent_without_today_refuted). *)
 From Coq Require Import Lia ZifyBool.
 From HP Require Import Base.Bytes Base.Num Model.Scanner Model.Parser Model.Dates Model.Writer Model.Reporters Model.Cli
   Spec.PeriodSpec Proofs.PeriodInterval Proofs.PeriodPick Proofs.PeriodSummary.
@@ -41,7 +42,7 @@ Lemma parse_opened_ext : forall NM (S : Type) (cb1 cb2 : S -> event NM -> S * bo
   (forall s ev, cb1 s ev = cb2 s ev) -> forall o s, parse_opened NM cb1 o s = parse_opened NM cb2 o s.
 Proof.
   intros NM S cb1 cb2 H o s. unfold parse_opened.
-  destruct o as [|d f|]; rewrite (parse_stream_ext NM cb1 cb2 H); reflexivity.
+  destruct o as [d f|]; rewrite (parse_stream_ext NM cb1 cb2 H); reflexivity.
 Qed.
 
 (** *** the walk looks at the period only through [in_interval] at UTC midnights *)
@@ -158,6 +159,24 @@ Proof.
   rewrite Hs. reflexivity.
 Qed.
 
+(** without --today the clock is read, but (fix F25) only its CALENDAR DAY enters: two clocks that show the
+    same civil date -- at whatever instants, in whatever zones -- load the same options (before the fix the
+    instant entered, and the same day could give two different reports: the former finding
+    [tz_independent_without_today_refuted] of PeriodRun.v) *)
+Theorem load_depends_on_clock_day_only : forall w i tz1 tz2 c1 c2, civ c1 = civ c2 ->
+  load (with_zone w tz1 c1) i = load (with_zone w tz2 c2) i.
+Proof.
+  intros w i tz1 tz2 c1 c2 Hc. unfold load.
+  change (load_config (with_zone w tz1 c1) i) with (load_config w i).
+  change (load_config (with_zone w tz2 c2) i) with (load_config w i).
+  destruct (load_config w i) as [e|cfg]; [reflexivity|].
+  destruct (tokenize _) as [toks|]; [|reflexivity].
+  change (w_clock (with_zone w tz1 c1)) with c1. change (w_clock (with_zone w tz2 c2)) with c2.
+  assert (E : civ (or_default (ce_now cfg) c1) = civ (or_default (ce_now cfg) c2))
+    by (destruct (ce_now cfg); [reflexivity|exact Hc]).
+  rewrite E. reflexivity.
+Qed.
+
 (** *** commands *)
 Section Commands.
   Context (NM : Num).
@@ -265,6 +284,17 @@ Section Commands.
   Proof.
     intros w i s tz1 tz2 c1 c2 Hs. unfold run.
     rewrite (load_today_ignores_zone_and_clock w i s tz1 tz2 c1 c2 Hs).
+    destruct (load (with_zone w tz2 c2) i) as [e|op]; [reflexivity|].
+    destruct (i_cmd i); reflexivity.
+  Qed.
+
+  (** ... and without --today only the calendar day the clock shows is consulted (fix F25) *)
+  Theorem run_depends_on_clock_day_only : forall w i tz1 tz2 c1 c2,
+    civ c1 = civ c2 ->
+    run NM (with_zone w tz1 c1) i = run NM (with_zone w tz2 c2) i.
+  Proof.
+    intros w i tz1 tz2 c1 c2 Hc. unfold run.
+    rewrite (load_depends_on_clock_day_only w i tz1 tz2 c1 c2 Hc).
     destruct (load (with_zone w tz2 c2) i) as [e|op]; [reflexivity|].
     destruct (i_cmd i); reflexivity.
   Qed.
